@@ -10,19 +10,21 @@ log="$d/confirm.log"; : > "$log"
 demo=$(ls zz_demo_test.go skiplist/zz_demo_test.go 2>/dev/null | head -1)
 [ -z "$demo" ] && { echo "no demo file" | tee -a "$log"; exit 2; }
 pkg=.; case "$demo" in skiplist/*) pkg=./skiplist;; esac
+# a demonstration that uses the inert hooks is a '//go:build verif' file
+tags=""; head -3 "$demo" | grep -q '^//go:build verif' && tags="-tags verif"
 pat=$(grep -oE '^func (Test[A-Za-z0-9_]+)' "$demo" | awk '{print $2}' | paste -sd'|')
 cp "$demo" /tmp/demo.$$.go; cp patch.diff /tmp/patch.$$.diff
 git checkout -q -- . ; git clean -fdq -e patch.diff -e NOTES.md -e confirm.log -e '*.diff' >/dev/null 2>&1
 mkdir -p "$(dirname "$demo")"; cp /tmp/demo.$$.go "$demo"
-echo "demo=$demo pkg=$pkg tests=$pat" | tee -a "$log"
+echo "demo=$demo pkg=$pkg tests=$pat tags=[$tags]" | tee -a "$log"
 echo "--- demo WITHOUT the change" | tee -a "$log"
-timeout 900 go test -vet=off -count=1 -run "^($pat)\$" $pkg >> "$log" 2>&1; rc0=$?
+timeout 900 go test $tags -vet=off -count=1 -run "^($pat)\$" $pkg >> "$log" 2>&1; rc0=$?
 echo "demo without change: exit $rc0" | tee -a "$log"
 git apply /tmp/patch.$$.diff || { echo "patch does not apply" | tee -a "$log"; exit 2; }
 go build ./... >> "$log" 2>&1 && go build -tags verif ./... >> "$log" 2>&1; rcb=$?
 echo "build (both tags): exit $rcb" | tee -a "$log"
 echo "--- demo WITH the change" | tee -a "$log"
-timeout 900 go test -vet=off -count=1 -run "^($pat)\$" $pkg >> "$log" 2>&1; rc1=$?
+timeout 900 go test $tags -vet=off -count=1 -run "^($pat)\$" $pkg >> "$log" 2>&1; rc1=$?
 echo "demo with change: exit $rc1" | tee -a "$log"
 echo "--- existing suite WITH the change (demo excluded)" | tee -a "$log"
 mv "$demo" /tmp/demo.$$.go
